@@ -265,7 +265,7 @@ BYTE_SHAPES = {
     "try-finally-loop": by_try_finally_loop, "nested-ifs": by_nested_ifs, "function-body-call": by_ternary_big_arm,
 }
 
-PLACEMENTS = ["top", "function", "callback"]
+PLACEMENTS = ["top", "function", "callback", "arrow"]
 
 
 def place(body, result, placement):
@@ -275,6 +275,8 @@ def place(body, result, placement):
         return "var main = function(){ started(); %s return (%s); }; main()" % (body, result)
     if placement == "callback":
         return "[1].map(function(){ started(); %s return (%s); })[0]" % (body, result)
+    if placement == "arrow":
+        return "var mainA = () => { started(); %s return (%s); }; mainA()" % (body, result)
     raise KeyError(placement)
 
 
@@ -393,9 +395,38 @@ def judge(chk, tags, n, src, expected, res, boundary):
     chk.sample({"shape": shape, "placement": placement, "n": n, "outcome": "refused: " + msg[:80]}, cls=sig + "refused", per_class=1, total=30)
 
 
+POSITION_NS = [10, 255, 256, 32767, 32768, 65534, 65535, 65536, 65537, 70000, 131071, 131072, 131073, 200000]
+MARK = 'throw new Error("pos")'
+# (function/arrow placements: throws inside functions carry a position since fix C07-07 function-source-maps)
+POSITION_PLACEMENTS = ("top", "function", "arrow")
+
+
+def position_cases(quick):
+    """Source positions are sizes too: a throw far to the right on its line (after a long literal on the same
+    line) or far down the file must report exactly its line and column."""
+    out = []
+    ns = [n for n in POSITION_NS if not quick or n in (10, 256, 65535, 65536, 65537, 131072)]
+    for n in ns:
+        for kind in ("column", "line", "column-comment"):
+            for placement in POSITION_PLACEMENTS:
+                if kind == "column":
+                    body = 'var pad = "%s"; var r; try { %s; } catch (e) { r = e.lineNumber * 10000000 + e.columnNumber; }' % ("a" * n, MARK)
+                elif kind == "column-comment":
+                    body = '/* %s */ var r; try { %s; } catch (e) { r = e.lineNumber * 10000000 + e.columnNumber; }' % ("c" * n, MARK)
+                else:
+                    body = 'var r; %s try { %s; } catch (e) { r = e.lineNumber * 10000000 + e.columnNumber; }' % ("\n" * n, MARK)
+                src = place(body, "r", placement)
+                i = src.index(MARK)
+                line = src.count("\n", 0, i) + 1
+                col = i - (src.rfind("\n", 0, i) + 1) + 1
+                out.append((("position-" + kind, placement, "position"), n, src, float(line * 10000000 + col), True))
+    return out
+
+
 def build(chk):
     cases = []
     quick = chk.tier == "quick"
+    cases.extend(position_cases(quick))
     for shape, fn in sorted(OPERAND_SHAPES.items()):
         for placement in PLACEMENTS:
             ns = OPERAND_NS
@@ -410,7 +441,7 @@ def build(chk):
     bounds = BYTE_BOUNDS_QUICK if quick else BYTE_BOUNDS_THOROUGH
     for shape, fn in sorted(BYTE_SHAPES.items()):
         for pi, placement in enumerate(PLACEMENTS):
-            if quick and (pi + sorted(BYTE_SHAPES).index(shape) + chk.seed) % 3 != 0:
+            if quick and (pi + sorted(BYTE_SHAPES).index(shape) + chk.seed) % 4 != 0:
                 continue  # one placement per shape in quick, rotated by seed
             ks = byte_ks(fn, placement, bounds)
             mp = bytes_per_unit(fn, placement)
